@@ -107,7 +107,9 @@ class Sched:
         return min(ds) if ds else None
 
     def advance(self, dt, pick=None):
-        target = self.clock.now + dt
+        self.advance_to(self.clock.now + dt, pick)
+
+    def advance_to(self, target, pick=None):
         self.settle(pick)
         while True:
             d = self.next_deadline()
